@@ -183,7 +183,7 @@ func parseContractComments(fset *token.FileSet, f *ast.File, pkgPath string) ([]
 						return nil, fmt.Errorf("%s: bad loop clause kind", where)
 					}
 					label, _, e := splitLabel(strings.TrimSpace(r2[len(kind):]))
-					cl := &Clause{Kind: kind, Label: label, Expr: e, Loop: n, Line: where}
+					cl := &Clause{Kind: kind, Label: label, Expr: e, Loop: n, Line: where, Assumed: strings.HasPrefix(label, "assumed")}
 					cur.Loops[n] = append(cur.Loops[n], cl)
 					lastClause = cl
 				case "crashinv":
